@@ -566,7 +566,7 @@ impl Prop for C04T {
             let mut payload = b"a\n".to_vec();
             payload.extend(std::iter::repeat(b'p').take(small + rng.below(40)));
             let second = Unit { colon: true, mnems: vec!["ZOO".into(), "STR".into()], query: true, args: vec![quote(b'"', &payload)], ..Default::default() };
-            msgs = vec![Msg { units: vec![first, second], semi: false, lead: vec![] }];
+            msgs = vec![Msg { units: vec![first, second], semi: false, lead: vec![], trail: vec![] }];
             n = small;
             early = true;
         }
